@@ -21,6 +21,8 @@ void vcheck_true(bool c, const char* tag, int k);
 void vcheck_indep(double a, const char* family, const char* tag, int k); // a does not depend on symbols of `family`
 void vcheck_sat(bool c, const char* tag, int k);    // witness: c must be satisfiable here
 void vcheck_deriv(double f, double df, const char* var, const char* tag, int k, double fd_estimate); // df = d f / d var (engine: formal derivative; native: against the finite-difference estimate)
+double vdiff(double f, const char* var);            // engine: formal partial derivative w.r.t. "r" or "theta"; native: 0 (unused)
+void vcheck_eq_fd(double a, double b, const char* tag, int k, double fd); // engine: a = b; native: b against the finite-difference value fd
 void vrace_begin();                                  // race mode: parallel regions from here on are analysed
 void vreach(const char* tag);
 void vout(double a, const char* tag, int k);        // observed value (differential validation only)
